@@ -142,6 +142,7 @@ enum Effect {
     InvalidateExpert(usize),
     Subscribe(usize, i64),
     Unsubscribe(usize, i64),
+    SetMaxHeight(i64),
     Stabilise,
     Panic,
 }
@@ -262,6 +263,7 @@ impl P {
             "unsub" => Effect::Unsubscribe(n(1), z(2)),
             "makestale" => Effect::MakeStale(n(1)),
             "invalidate" => Effect::InvalidateExpert(n(1)),
+            "setmaxheight" => Effect::SetMaxHeight(z(1)),
             "stabilise" => Effect::Stabilise,
             "panic" => Effect::Panic,
             _ => panic!("parse: effect {t}"),
@@ -565,6 +567,11 @@ fn run_effects(arg: &Val, effs: &[Effect]) {
             Effect::InvalidateExpert(e) => {
                 if let Some(rec) = expert_rec(*e) {
                     rec.weak.invalidate()
+                }
+            }
+            Effect::SetMaxHeight(n) => {
+                if let Some(s) = c.state.upgrade() {
+                    s.set_max_height_allowed(*n as usize)
                 }
             }
             Effect::Stabilise => {
